@@ -10,7 +10,7 @@
    joined s n m rel = the store has an edge of relation rel between n and m;  find_node = _find_node
    (exactly one node of that graph with that NodeID, else the call raises). *)
 From Coq Require Import List NArith ZArith Bool.
-From FIM Require Import Gen.Query6Gen Model.Query6 Proofs.Query6Nbr Proofs.Query6Path Proofs.Query6Api Proofs.Query6Gen.
+From FIM Require Import Gen.Query6Gen Model.Query6 Proofs.Query6Nbr Proofs.Query6Path Proofs.Query6Api Proofs.Query6Gen Proofs.Query6Own.
 Import ListNotations.
 Open Scope N_scope.
 
@@ -196,6 +196,58 @@ Example C06_path_with_hops_example :
   path_with_hops ex_store 1 1 5 [4] 100 = Ok [1; 2; 4; 5] /\ path_with_hops ex_store 1 1 5 [] 100 = Ok [1; 2; 3; 5]
   /\ path_with_hops ex_store 1 1 5 [4] 2 = Ok [] /\ path_with_hops ex_store 1 3 4 [2; 5] 100 = Ok []
   /\ path_with_hops ex_store 1 1 5 [] (-1) = Ok [].
+Proof. vm_compute. repeat split. Qed.
+
+(* ------------------------------------------------------------------------------------------------- *)
+(* several graphs in one store: whatever edges the store holds - also edges that cross graph boundaries, as
+   merge_nodes leaves them until the other graph's nodes are re-homed - every NodeID a query returns is the
+   NodeID of a node OF THE QUERIED GRAPH (owned s gid x = exists m, in_graph s gid m /\ n_id m = x).
+   For ANY store: no well-formedness hypothesis. *)
+Theorem C06_first_neighbor_own_graph : forall s gid id rel cls r x,
+  first_neighbor s gid id rel cls = Ok r -> In x r -> owned s gid x.
+Proof. exact first_neighbor_owned. Qed.
+Print Assumptions C06_first_neighbor_own_graph.
+
+Theorem C06_second_neighbor_own_graph : forall s gid id rel1 c1 rel2 c2 r b c,
+  first_and_second_neighbor s gid id rel1 c1 rel2 c2 = Ok r -> In (b, c) r -> owned s gid b /\ owned s gid c.
+Proof. exact second_neighbor_owned. Qed.
+Print Assumptions C06_second_neighbor_own_graph.
+
+Theorem C06_shortest_path_own_graph : forall s gid a z rel ids x,
+  shortest_path s gid a z rel = Ok ids -> In x ids -> owned s gid x.
+Proof. exact shortest_path_owned. Qed.
+Print Assumptions C06_shortest_path_own_graph.
+
+Theorem C06_path_with_hops_own_graph : forall s gid a z hops cutoff ids x,
+  path_with_hops s gid a z hops cutoff = Ok ids -> In x ids -> owned s gid x.
+Proof. exact path_with_hops_owned. Qed.
+Print Assumptions C06_path_with_hops_own_graph.
+
+Theorem C06_get_parent_own_graph : forall s gid id rel parent p,
+  get_parent s gid id rel parent = Ok (Some p) -> owned s gid p.
+Proof. exact get_parent_owned. Qed.
+Print Assumptions C06_get_parent_own_graph.
+
+Theorem C06_peer_connection_points_own_graph : forall V s gid id l c,
+  find_peer_connection_points V s gid id = Ok (Some l) -> In c l -> owned s gid c.
+Proof. exact peers_owned. Qed.
+Print Assumptions C06_peer_connection_points_own_graph.
+
+Theorem C06_node_connection_points_own_graph : forall V s gid id l c,
+  get_all_node_or_component_connection_points V s gid id = Ok l -> In c l -> owned s gid c.
+Proof. exact node_cps_owned. Qed.
+Print Assumptions C06_node_connection_points_own_graph.
+
+(* cross_store: ConnectionPoint 1 of graph 1 is joined to Link 5 of graph 2.  The Link is not reported as a
+   neighbour, parent, peer or path node of graph 1; it is reported inside graph 2 *)
+Example C06_cross_graph_example :
+  wf_store cross_store = true
+  /\ first_neighbor cross_store 1 1 2 6 = Ok [] /\ first_neighbor cross_store 1 1 2 4 = Ok [2]
+  /\ get_parent cross_store 1 1 2 6 = Ok None
+  /\ first_and_second_neighbor cross_store 1 2 2 5 2 6 = Ok []
+  /\ find_peer_connection_points std_vocab cross_store 1 1 = Ok None
+  /\ shortest_path cross_store 1 2 5 None = Err /\ shortest_path cross_store 1 2 1 None = Ok [2; 1]
+  /\ first_neighbor cross_store 2 5 2 5 = Ok [6] /\ first_neighbor cross_store 2 6 2 6 = Ok [5].
 Proof. vm_compute. repeat split. Qed.
 
 (* ------------------------------------------------------------------------------------------------- *)
